@@ -279,7 +279,7 @@ def instantiate(h, terms, budget=150):
 # so that a verdict does not depend on the load of the machine; the wall-clock timeout is only a safety net.
 RLIMIT_PER_MS = int(os.environ.get("VERIF_RLIMIT_PER_MS", "600"))
 WALL_FACTOR = 30
-ESCALATION = int(os.environ.get("VERIF_ESCALATION", "6"))
+ESCALATION = int(os.environ.get("VERIF_ESCALATION", "5"))
 _RL_LOG = os.environ.get("VERIF_RLIMIT_LOG")
 
 
@@ -377,6 +377,10 @@ def _discharge_once(hyps, cond, timeout, scale):
             return "failed", m, True
         if not quantified:
             return "unknown", None, False
+    if scale > 1:
+        # escalation pass: only the attempts that can still prove the goal; the candidate search and the repeated
+        # full attempts of the first pass are not worth a multiple of their budget
+        return "unknown", None, False
     ground = [h for h in hyps if not has_quantifier(h)]
     r2, m2 = _solve(ground, cond, 4000)
     if r2 == z3.unsat:
@@ -590,15 +594,20 @@ def _verify(contract, index, schema_mod, fs, res):
     # unless some obligation of this function already failed with an exact model (then the verdict is clear)
     first = {}
     exact_failure = False
+    undischarged = 0
     for name, items in by_name.items():
         for n, (kind, pc, cond, stx, line) in enumerate(items):
             c = z3.simplify(cond)
             if z3.is_true(c):
                 first[(name, n)] = ("proved", None, 0.0, True)
                 continue
-            budget = contract.timeout if not exact_failure else min(contract.timeout, 1500)
+            # once the function is clearly not verifying (an exact counter-model, or two undischarged obligations) the
+            # remaining obligations only get a short budget: the verdict of the function is decided already
+            budget = contract.timeout if not (exact_failure or undischarged >= 2) else min(contract.timeout, 1500)
             r = discharge(axioms, pc, cond, budget, scales=(1,))
             first[(name, n)] = r
+            if r[0] != "proved":
+                undischarged += 1
             if r[0] == "failed" and r[3]:
                 exact_failure = True
     escalated_failure = False
